@@ -49,7 +49,7 @@ func init() {
 			}
 			defer w0.close()
 			// bearer tokens must come from the issuer the proxy under test trusts
-			identities := []string{"alice@example.com", "bob@other.org", "carol@example.com", "sub-alice", "sub-bob", "sub-carol", "hpuser"}
+			identities := []string{"alice@example.com", "bob@other.org", "carol@example.com", "sub-alice", "sub-bob", "sub-carol", "hpuser", "dave.example.com", "sub-dave", "erin.example.com"}
 			for _, c := range cs {
 				in := c.In
 				cred, user := vpS(in, "cred"), vpS(in, "user")
@@ -172,6 +172,12 @@ func init() {
 				bp := vpS(in, "bypass")
 				if bp == "ip" || (bp == "route" && vpS(in, "endpoint") != "proxy") {
 					req.RemoteAddr = "198.51.100.77:4000"
+				}
+				switch bp {
+				case "spoof_uri":
+					req.Header = append(req.Header, [2]string{"X-Forwarded-Uri", "/open/x"}, [2]string{"X-Forwarded-Proto", "https"}, [2]string{"X-Forwarded-Host", vpHost})
+				case "spoof_ip":
+					req.Header = append(req.Header, [2]string{"X-Forwarded-For", "198.51.100.77"}, [2]string{"X-Real-Ip", "198.51.100.77"})
 				}
 				if vpS(in, "errmode") == "accept_json" {
 					req.Header = append(req.Header, [2]string{"Accept", "text/html, application/json"})
